@@ -310,7 +310,7 @@ func writeSchemas(dir, tier string, seed int) ([]*SchemaFile, error) {
 	d1 := depth1Shapes(rng, full)
 	n2 := 24
 	if full {
-		n2 = 900
+		n2 = 400
 	}
 	d2 := depth2Shapes(rng, d1, n2)
 	all := append(append([]shape{}, d1...), d2...)
